@@ -15,12 +15,12 @@ CLAIMS = {
  "C06": ("§0a, §5 C06", "unmarshalPointer vs validate vs the generic protowire scan vs checkInitializedPointer on every byte string <=3..4 (5..6 thorough) for 7 corpus types, plus one-field structured inputs (symbolic tag byte, exact-shape payloads up to 10-byte varints), small symbolic recursion limits 0..3 on VNests: never panics, consumes exactly its input, accepts only well-formed wire data, rejects all malformed data, Valid=>decodes, Invalid=>fails, never reports a partial message initialized."),
  "C07": ("§0a, §5 C07", "mergePointer vs decoding of concatenations on corpus types, |x|+|y|<=3 (5 thorough): Merge(a,b)==Unmarshal(Marshal(a)++Marshal(b)), Unmarshal(x++y)==Merge(Unmarshal x,Unmarshal y), decoding y into a populated message == Merge; source unchanged. Known finding (thorough bound only): explicit zero of an implicit-presence scalar in y. Reflection merge, maps, oneofs, extensions outside."),
  "C09": ("§0a, §5 C09", "On corpus types and VEmpty: unknown fields survive decode/marshal (round trip via canon), decoding via a schema that knows no field and re-encoding gives the same message as decoding directly, DiscardUnknown leaves no unknown bytes anywhere in the tree (walker over the mirror types); inputs <=3..4 (5) bytes and one-field structured inputs."),
- "C10": ("§0a, §5 C10", "Three accountings of required fields (decoder requiredMask/initialized flag, validate's mask, checkInitializedPointer) on VReq, VReqOuter (required below message/repeated/group) and the opaque VReqO: flag=>complete, validator flag=>complete, and complete=>flag on the re-marshalled form; open and opaque flavours agree. JSON/text paths, extensions, map values, oneofs, >64 required fields outside."),
+ "C10": ("§0a, §5 C10", "Three accountings of required fields (decoder requiredMask/initialized flag, validate's mask, checkInitializedPointer) on VReq, VReqOuter (required below message/repeated/group) and the opaque VReqO: flag=>complete, validator flag=>complete, and complete=>flag on the re-marshalled form; open and opaque flavours agree; a message with 66 required fields (VBig) reports whichever single field is missing; a lazily decoded child with required fields (VLazyReq) gets the same verdict lazily and eagerly; required fields below a cycle of message types vs a reference walk (one known finding: needsInitCheck provisional-false caching). JSON/text paths, extensions, map values, oneofs outside."),
  "C11": ("§0a, §5 C11", "Opaque presence bitmap: one step of SetPresent/SetPresentUnatomic/ClearPresent/Present/AnyPresent/PresentInCache from an arbitrary bitmap state (covers every history); implicit-presence zero never encoded and explicit proto3 optional encoded once set (VScalars3, inputs<=4); open vs opaque presence-carrying flavours agree. Reflection Has, JSON/text presence outside."),
  "C13": ("§0a, §5 C13", "Validated (proto3) vs non-validated string/bytes fields on VScalars3/VRepeats/VScalars2: decoder and validator agree on acceptance for every input <=3 bytes and for every one-field payload <=3 bytes (all rune widths need 4: thorough), round trip unchanged. Map keys/values, JSON/text message level outside."),
- "C14": ("§0a, §5 C14", "After unmarshalPointer returns, overwriting every input byte with arbitrary values leaves the deterministic encoding unchanged (5 corpus types incl. unknown fields; lazily decoded VNode and VHolder{VNode} compared with a twin decoded from a private copy, incl. double lazy decode); after mergePointer, overwriting the source's byte slices/scalars leaves the destination unchanged. Clone via reflection, maps outside."),
+ "C14": ("§0a, §5 C14", "After unmarshalPointer returns, overwriting every input byte with arbitrary values leaves the deterministic encoding unchanged (5 corpus types incl. unknown fields; lazily decoded VNode (lazy child bodies <=3 bytes, optionally after an empty decode) and VHolder{VNode} with the node field twice on the wire, compared with a twin decoded from a private copy and inspected only after the overwrite); after mergePointer, overwriting the source's byte slices/scalars leaves the destination unchanged. Clone via reflection, maps outside."),
  "C16": ("§0a, §5 C16", "Size caches of the whole tree set to arbitrary int32 values (= every history of earlier Size/Marshal calls and mutations), then the exact sequence proto.Marshal performs (sizePointer, marshalAppendPointer with UseCachedSize) yields the encoding of the current content; VNests/VReqOuter/VScalars2 from inputs <=4 (5) bytes."),
- "C17": ("§0a, §5 C17", "Opaque VNode with a lazy self-recursive child: lazy vs NoLazyDecoding on every input <=3 (5) bytes and on structured inputs (child bodies, repeated/out-of-order/non-contiguous children): same verdict, initialized flag, presence bits, Size==len, pass-through bytes decode to the same message, same deterministic bytes, same CheckInitialized, forcing every lazy field never panics; protolazy.lookupField vs reference on sorted indexes <=4 entries; buildIndex/SizeField/AppendField segments on scan-accepted inputs <=5 (6)."),
+ "C17": ("§0a, §5 C17", "Opaque VNode with a lazy self-recursive child: lazy vs NoLazyDecoding on every input <=3 (5) bytes and on structured inputs (child bodies, repeated/out-of-order/non-contiguous children): same verdict, initialized flag, presence bits, Size==len, pass-through bytes decode to the same message, same deterministic bytes, same CheckInitialized, forcing every lazy field never panics; DiscardUnknown never re-emits unknown fields through raw pass-through; protolazy.lookupField vs reference on sorted indexes <=4 entries; buildIndex/SizeField/AppendField segments on scan-accepted inputs <=5 (6)."),
  "C18": ("§5 C18", "Consistency half only: one inductive step of every write-once publication primitive (AtomicSetPointerIfNil, AtomicInitializePointer, AtomicLoadPointer, atomicV1MessageInfo.SetIfNil, atomicNilMessage.Init) from an arbitrary cell state: a published value is never overwritten, every caller obtains the final value. Data-race freedom (Go memory model) is outside this technique."),
  "C22": ("§5 C22", "Integers only: JSON number literals of case-split shape (sign, <=2 (5) integer digits, <=2 (3) fraction digits, exponent in {-3..3,17..22} (-25..25), all digits symbolic) and 19/20-digit plain integers around 2^63 and 2^64 (concrete prefix, three symbolic digits) through parseNumberParts -> normalizeToIntString -> strconv vs exact reference arithmetic for int32/int64/uint32/uint64 (cvc5 integer back end): accepted iff integral and in range, value exact. Floats, enums, base64 outside."),
  "C26": ("§5 C26", "Kernel: internal/set.Ints one inductive step (Set/Clear/Has/Len from arbitrary state, 63/64 boundary) for duplicate detection; JSON token decoder total on every document <=4 (5) bytes; text parseString total. RecursionLimit and seenNums call sites in protojson/prototext.unmarshalMessage outside."),
@@ -28,9 +28,9 @@ CLAIMS = {
  "C29": ("§0a, §5 C29", "Open-struct vs opaque flavour of the same schema on the fast path (VReq/VReqO, VScalars2/VScalarsO): same verdict, initialized flag, identical deterministic bytes, Size, CheckInitialized and validator results on every input <=3..4 (5..6) bytes and on one-field structured inputs. Hybrid API, builders/setters, dynamicpb, JSON/text outside."),
  "C38": ("§5 C38", "Kernel only: filedesc.unmarshalFeatureSet/unmarshalGoFeature resolve every feature flag to the last explicit setting in the options bytes (<=3 settings of features 1..6 with enum values 0..3, optional Go-features block; enum numbers written out from descriptor.proto) else to the arbitrary parent's value; getFeaturesFor picks the defaults of the greatest known edition not above the requested one on arbitrary sorted tables of 1..3 editions. protodesc's resolution (proto.GetExtension) and 'proto2/proto3 file == editions translation' at runtime are outside."),
  "C39": ("§5 C39", "defval Marshal/Unmarshal round trip: bytes defaults of every content <=3 (4) bytes in both formats (real text.UnmarshalString underneath, exact Sprintf octal model), bool and string defaults. Integer kinds (strconv.FormatInt/ParseInt digit loops: solver unknown within budget, tried and dropped), floats and enums by name are outside."),
- "C21": ("§5 C21", "internal/encoding/json token level: parseNumber vs the RFC 8259 number grammar on every byte string <=6 (8 thorough) in both directions (accepted => grammatical and delimiter-terminated; grammatical+delimiter => accepted whole), parseString vs an RFC 8259 string reference incl. decoded value on quote+<=5 (7) bytes and on \\uXXXX escapes / surrogate pairs with symbolic hex digits, null/true/false matching, and Decoder.Read to EOF on every document <=4 (5) bytes: accepted => the reference JSON grammar accepts. Message-level protojson output is outside."),
- "C23": ("§5 C23", "protojson.parseDuration vs a three-valued reference recogniser of the documented Duration grammar with exact (seconds,nanos) incl. sign rule on every string <=6 (8 thorough) bytes, plus structured long literals (sign, <=13 integer digits, <=10 fractional digits, all digits symbolic; cvc5 integer back end). FieldMask JSON reversibility kernel (JSONCamelCase/JSONSnakeCase) via C42's harness. Timestamp text (time.Parse), Struct/Value/Any and the range check in unmarshalDuration are outside."),
- "C25": ("§5 C25", "text.appendString -> UnmarshalString round trip for every byte string <=3 (4 thorough) bytes in both outputASCII modes (byte-exact, ASCII mode emits only 0x20..0x7e), and parseString totality on quote+<=4 (5) arbitrary bytes with either quote. Strings longer than the bound are outside."),
+ "C21": ("§5 C21", "internal/encoding/json token level: parseNumber vs the RFC 8259 number grammar on every byte string <=6 (8 thorough) in both directions (accepted => grammatical and delimiter-terminated; grammatical+delimiter => accepted whole), parseString vs an RFC 8259 string reference incl. decoded value on quote+<=5 (7) bytes, on \\uXXXX escapes with symbolic digits and on high-surrogate escapes followed by two free bytes and four hex digits (pairs, lone and malformed surrogates), null/true/false matching, and Decoder.Read to EOF on every document <=4 (5) bytes: accepted => the reference JSON grammar accepts. Message-level protojson output is outside."),
+ "C23": ("§5 C23", "protojson.parseDuration vs a three-valued reference recogniser of the documented Duration grammar with exact (seconds,nanos) incl. sign rule on every string <=6 (8 thorough) bytes, plus structured long literals (sign, <=13 integer digits, none/0/1/9/10 fractional digits, all digits symbolic; cvc5 integer back end) and integer parts around 2^63/2^64 (concrete prefix + 3 symbolic digits: fits-int64 <=> accepted). FieldMask JSON reversibility kernel (JSONCamelCase/JSONSnakeCase) via C42's harness. Timestamp text (time.Parse), Struct/Value/Any and the range check in unmarshalDuration are outside."),
+ "C25": ("§5 C25", "text.appendString -> UnmarshalString round trip for every byte string <=2 (3 thorough) bytes and for every valid 3-byte and 4-byte UTF-8 sequence (all BMP and supplementary code points) in both outputASCII modes (byte-exact, ASCII mode emits only 0x20..0x7e), and parseString totality on quote+<=4 (5) arbitrary bytes with either quote. Strings longer than the bound are outside."),
  "C30": ("§5 C30", "protoreflect.Value.Equal on scalar Values of the 10 scalar kinds with full-width symbolic contents (floats through the SMT FloatingPoint theory, strings/bytes <=2 bytes): reflexive incl. NaN, symmetric, transitive, different kinds unequal, nil bytes == empty bytes; list equality element-wise on lists <=2. Message/map equality, equalUnknown (reflect.DeepEqual) and protocmp are outside."),
  "C35": ("§5 C35", "filedesc.FieldRanges/EnumRanges.CheckValid vs a reference (valid bounds, non-empty, pairwise disjoint, order independent) on <=3 (4) ranges with all-int32 bounds, CheckOverlap on two valid lists, Names.CheckValid vs duplicate detection, protoreflect.Name/FullName.IsValid vs the identifier grammar on all strings <=5 (6). NewFile as a whole and the other validators are outside."),
  "C36": ("§5 C36", "FieldRanges/EnumRanges.Has == membership in the listed ranges for every int32 probe on every valid list of <=3 (4) ranges (binary search on every shape), Get(i), Names.Has, FieldNumbers.Has, FullName Append/Parent/Name inverse laws on valid names. Descriptors built by the real builders are outside."),
